@@ -290,7 +290,7 @@ def validate_traces(ctx, mode, res, items, stage):
         # locate the offending line: rejected traces print it, invariant / property violations
         # show the line counter of the last state
         m = re.findall(r"TRACE_REJECTED_AT_LINE\D+(\d+)", tv.out)
-        if m:
+        if m and tv.violated == "postcondition":
             ln = int(m[-1])
         else:
             ls = [int(x) for x in re.findall(r"(?m)^/\\ l = (\d+)", tv.out)]
